@@ -16,6 +16,9 @@ STARTS = [0, 0, 5, (1 << 31) - 2, (1 << 31) - 1, W - 1, W - 2, W - 3, W - 1, W -
           253, 254, 255, 256, W - 258, W - 257, W - 256, W - 255]
 
 
+L_REST = 3900     # search mode: byte b of the fiber_spinlock_t = 3900 + b (bytes registered otherwise keep their locs)
+
+
 def u32(v):
     return v % W
 
@@ -49,6 +52,9 @@ def monitor(case, tr, raw):
     unlocks happened) from the events alone and never consults the model."""
     if tr is None:
         return "implementation produced no trace: %s" % (raw or "")[:80]
+    # search mode (RT_CATCHALL=1): accesses to bytes of the object(s) that have no location of their own are
+    # scheduling points, not events of the protocol judged here
+    tr = [e for e in tr if e[1] < L_REST or e[2] in (909, 919)]
     params, progs = parse_case(case)
     start = u32(params[0])
     nthreads = len(progs)
@@ -278,11 +284,12 @@ def search(ctx, exe):
         cases = cases[:40000]
     finally:
         rng_ctx.cleanup()
-    impl = core.run_sharded([exe], cases)
+    # RT_CATCHALL: every byte of the spinlock object is a scheduling point (fields the model does not know included)
+    impl = core.run_sharded(["env", "RT_CATCHALL=1", exe], cases)
     for c, line in zip(cases, impl):
         why = core.safe_monitor(monitor, c, core.parse_trace(line) if line is not None else None, line)
         if why:
-            core.report_violation(ctx, "spin", c, why, line)
+            core.report_violation(ctx, "spin+catchall", c, why, line)
             if len(ctx.violations) >= 3:
                 break
 
@@ -301,6 +308,11 @@ def replay(ctx, payload):
     if not exe or not c:
         print("nothing to replay (no concrete case in this file)")
         return 2
+    if str(payload.get("harness", "")).endswith("+catchall"):
+        impl = core.run_sharded(["env", "RT_CATCHALL=1", exe], [c])[0]
+        why = core.safe_monitor(monitor, c, core.parse_trace(impl) if impl is not None else None, impl)
+        print("case:  %s\nimpl (every byte of the object a scheduling point):  %s\nmonitor: %s" % (c, impl, why or "ok"))
+        return 1 if why else 0
     impl = core.run_sharded([exe], [c])[0]
     mod = core.model_run("spin", [c])[0]
     why = monitor(c, core.parse_trace(impl), impl)
